@@ -215,6 +215,9 @@ def pipeline(chk):
         rng.shuffle(recs)
         pair = Pair(chk.scratch)
         dirs = []
+        D.UPPER_TYPES.clear()
+        if h % 3 == 1:       # every identifier of one or two types spelled with upper-case hex letters
+            D.UPPER_TYPES.update(rng.sample(sorted({r["type"] for r in recs}), min(len({r["type"] for r in recs}), rng.choice([1, 2]))))
         try:
             i = 0
             while i < len(recs):
@@ -300,6 +303,60 @@ def pipeline(chk):
                 fl = [rand_filter(rng, recs)]
                 lines.append(read_line(tid, "query", "member-after-composite", parts[m], pref, lambda: ms.query([D.conc_filter(f, rng) for f in fl]), filters=fl,
                                        extra={"routes": {"after_composite": 1, "argument": 1}}))
+            # members that carry attached filters of their own while the composite (with its filters) is asked without an argument: afterwards each member,
+            # asked directly, answers under its own filters only
+            for m, ms in enumerate(members):
+                matt = [rand_filter(rng, recs)]
+                ms.filters.add([D.conc_filter(f, rng) for f in matt])
+                catt = [rand_filter(rng, recs)]
+                comp.filters.add([D.conc_filter(f, rng) for f in catt])
+                try:
+                    try:
+                        comp.query()
+                        if rng.random() < 0.5:
+                            comp.query(None)
+                    except Exception:  # noqa  (judged elsewhere)
+                        pass
+                finally:
+                    comp.filters.remove([f for f in list(comp.filters)])
+                pref = {(r["id"], r["ver"]): D.build(r) for r in parts[m]}
+                try:
+                    lines.append(read_line(tid, "query", "member-with-own-filters-after-composite", parts[m], pref, lambda: ms.query(), filters=matt,
+                                           extra={"routes": {"after_composite": 1, "attached": 1}}))
+                finally:
+                    ms.filters.remove([f for f in list(ms.filters)])
+                lines.append(read_line(tid, "query", "member-after-composite", parts[m], pref, lambda: ms.query(), extra={"routes": {"after_composite": 2}}))
+            # the composite as a member of another composite / as the source of an environment that gets a filter: what the parent hands down on a query
+            # must not stay attached to the nested composite, and taking the filter off the parent restores the parent's answers
+            outer = CompositeDataSource()
+            outer.add_data_sources([comp])
+            env2 = Environment(source=comp)
+            for parent_name, parent, addf in (("nested-composite", outer, lambda fs: outer.filters.add(fs)), ("environment-filter", env2, lambda fs: [env2.add_filter(f) for f in fs])):
+                oatt = [rand_filter(rng, recs)]
+                concrete = [D.conc_filter(f, rng) for f in oatt]
+                addf(concrete)
+                try:
+                    if parent is outer:
+                        lines.append(read_line(tid, "cquery", parent_name, union, ref, lambda: parent.query(), filters=oatt, extra={"member_order": order, "routes": {"composite": 1, "nested": 1}}))
+                        fl = [rand_filter(rng, recs)]
+                        lines.append(read_line(tid, "cquery", parent_name, union, ref, lambda: parent.query([D.conc_filter(f, rng) for f in fl]), filters=fl + oatt,
+                                               extra={"member_order": order, "routes": {"argument": 1, "composite": 1, "nested": 1}}))
+                    else:
+                        try:
+                            parent.query()
+                        except Exception:  # noqa
+                            pass
+                    if parent is outer:
+                        # the nested composite asked directly while its parent still carries the filter
+                        lines.append(read_line(tid, "cquery", "composite-under-filtered-parent", union, ref, lambda: comp.query(), extra={"member_order": order, "routes": {"nested": 2}}))
+                        for id_ in ids[:2]:
+                            lines.append(read_line(tid, "cget", "composite-under-filtered-parent", union, ref, lambda: comp.get(D.sid(id_)), id_=id_, extra={"member_order": order}))
+                finally:
+                    tgt = outer.filters if parent is outer else comp.filters
+                    tgt.remove([f for f in list(tgt)])
+                lines.append(read_line(tid, "cquery", "composite-after-parent", union, ref, lambda: comp.query(), extra={"member_order": order, "routes": {"nested": 3}}))
+                if parent is outer:
+                    lines.append(read_line(tid, "cquery", parent_name, union, ref, lambda: parent.query(), extra={"member_order": order, "routes": {"nested": 4}}))
             # navigation through a single store, the composite and the environment
             sdo = [r for r in recs if r["type"] not in (D.T_FILE, D.T_REL, D.T_UNREG)]
             for front_name, front, S, rf in (("memory", pair.mem, pair.listed["mem"], pair.ref), ("fs", pair.fs, pair.listed["fs"], pair.ref),
@@ -316,6 +373,7 @@ def pipeline(chk):
                                            id_=r["id"], nav=nav, filters=fl))
                     lines.append(read_line(tid, "creator_of", front_name, S, rf, lambda: front.creator_of(D.build(r)), obj=r))
         finally:
+            D.UPPER_TYPES.clear()
             pair.close()
             for d in dirs:
                 shutil.rmtree(d, ignore_errors=True)
